@@ -1244,6 +1244,106 @@ func init() {
 			r.Floor("stop functions of pools with a pending counter", n, 1)
 		})
 	})
+	extra["C18"] = append(extra["C18"], func(c *core.Ctx, r *core.Report) {
+		rule(r, "C18.R8", "a start that is still pending is abandoned by Stop: a timer armed to start the runner later (time.AfterFunc whose function reaches the start) is kept in a field of the Runner, and Stop stops that timer on every path (whenever there is one) — otherwise the runner starts after Stop has returned", func() {
+			f := findRunner(c)
+			if f == nil || f.stop == nil {
+				r.Undecided("anchor", "-", "Runner.Stop not resolved")
+				return
+			}
+			n := 0
+			for _, fn := range c.AllFuncs {
+				if core.RelPkg(fn) != "internal/raterun" {
+					continue
+				}
+				for _, call := range an.AllCalls(fn) {
+					t := an.Callee(call)
+					if t == nil || t.Pkg == nil || t.Pkg.Pkg.Path() != "time" || t.Name() != "AfterFunc" || len(call.Common().Args) != 2 {
+						continue
+					}
+					cb := an.FuncValueOf(call.Common().Args[1])
+					if cb == nil || f.loop == nil {
+						continue
+					}
+					// does the callback reach the function that starts the runner goroutine?
+					starts := false
+					for _, g := range an.GoTargetOf(c.AllFuncs, f.loop) {
+						starter := an.Outermost(g.Parent())
+						if cb == starter || an.ReachesCall(cb, 3, func(h *ssa.Function) bool { return h == starter }) {
+							starts = true
+						}
+					}
+					if !starts {
+						continue
+					}
+					n++
+					key := core.FuncName(fn) + "#pending-start"
+					// kept in a field of the Runner
+					var timerFld *types.Var
+					if v, isV := call.(ssa.Value); isV {
+						for _, ref := range an.Referrers(v) {
+							if st, isSt := ref.(*ssa.Store); isSt {
+								if fld := an.FieldOfAddr(st.Addr); fld != nil {
+									timerFld = fld
+								}
+								// through a local that is then stored
+								if al, isAl := st.Addr.(*ssa.Alloc); isAl {
+									for _, r2 := range an.Referrers(al) {
+										if ld, isLd := r2.(*ssa.UnOp); isLd {
+											for _, r3 := range an.Referrers(ld) {
+												if st2, isSt2 := r3.(*ssa.Store); isSt2 && an.FieldOfAddr(st2.Addr) != nil {
+													timerFld = an.FieldOfAddr(st2.Addr)
+												}
+											}
+										}
+									}
+								}
+							}
+						}
+					}
+					if timerFld == nil {
+						r.Violation(key, an.Pos(c, call), "the timer of a delayed start is not kept: Stop cannot abandon the pending start, and the runner starts after Stop returned")
+						continue
+					}
+					// Stop stops it on every path, unless there is none
+					isTimerStop := func(ci ssa.CallInstruction, t2 *ssa.Function) bool {
+						if t2 == nil || t2.Name() != "Stop" || t2.Signature.Recv() == nil || !an.IsNamed(t2.Signature.Recv().Type(), "time", "Timer") {
+							return false
+						}
+						fld, _ := an.TerminalField(ci.Common().Args[0])
+						return fld != nil && an.SameField(fld, timerFld)
+					}
+					evs := an.FlatCalls(f.stop, flatDepth, isTimerStop)
+					okStop := len(evs) > 0
+					for _, e := range evs {
+						// the only condition on it is that a timer exists
+						for _, fg := range an.GuardsOfEvent(e) {
+							bo, isBin := fg.Cond.(*ssa.BinOp)
+							gf, _ := an.TerminalField(func() ssa.Value {
+								if isBin {
+									return bo.X
+								}
+								return nil
+							}())
+							if !isBin || !isNilConst(bo.Y) || gf == nil || !an.SameField(gf, timerFld) {
+								okStop = false
+							}
+						}
+						// and it happens before Stop can return
+						if root := e.Root(); root.Parent() == f.stop {
+							for _, ret := range an.Returns(f.stop) {
+								if !an.Dominates(root, ret) {
+									okStop = false
+								}
+							}
+						}
+					}
+					r.Check(okStop, key, an.Pos(c, call), "Stop stops the pending timer "+timerFld.Name()+" on every path (whenever there is one)", "Stop does not stop the timer of a pending start ("+timerFld.Name()+") on every path: a Stop issued before the delay has elapsed returns, and the runner starts afterwards")
+				}
+			}
+			r.Exists("delayed starts", "-", "%d timers armed to start the runner later", n)
+		})
+	})
 	teardownCallers := func(prop, id string) {
 		extra[prop] = append(extra[prop], func(c *core.Ctx, r *core.Report) {
 			rule(r, id, "the handle's tearing-down phase begins only when its use ends: the function that switches the phase marker on is reached only through the teardown the constructor handed out, never called from another method while the body may still run", func() {
